@@ -474,12 +474,25 @@ def _family_of(ctx, f: Func, env: Env, e: ast.AST, unb_keys: Set[str], carbon_ke
     return None
 
 
-def _str_consts(e: ast.AST) -> Optional[List[str]]:
+def _str_consts(e: ast.AST, f: Optional[Func] = None) -> Optional[List[str]]:
+    """the string literals of ``e`` (a literal, a display of literals or - given the enclosing function - an
+    expression that folds to one at import time, e.g. ``list(ONE_SIDED)`` with a module-level tuple)"""
     s = const_str(e)
     if s is not None:
         return [s]
     if isinstance(e, (ast.List, ast.Tuple, ast.Set)) and e.elts and all(const_str(x) is not None for x in e.elts):
         return [const_str(x) for x in e.elts]
+    if f is not None and not isinstance(e, ast.Constant):
+        from ..constfold import Unfoldable, fold_in
+
+        try:
+            v = fold_in(f, e)
+        except Unfoldable:
+            return None
+        if isinstance(v, str):
+            return [v]
+        if isinstance(v, (list, tuple, set, frozenset)) and v and all(isinstance(x, str) for x in v):
+            return sorted(v) if isinstance(v, (set, frozenset)) else list(v)
     return None
 
 
@@ -531,7 +544,7 @@ def rule_e4(ctx) -> None:
             if isinstance(node, ast.Compare) and len(node.ops) == 1:
                 l, r = node.left, node.comparators[0]
                 for a, b in ((l, r), (r, l)):
-                    lits = _str_consts(b)
+                    lits = _str_consts(b, f)
                     if lits is None:
                         continue
                     fam = _family_of(ctx, f, env, a, unb_keys, carbon_keys)
@@ -552,7 +565,7 @@ def rule_e4(ctx) -> None:
                 # filter_data(..., unbalance_values=[...])
                 for k in node.keywords:
                     if k.arg == "unbalance_values":
-                        lits = _str_consts(k.value)
+                        lits = _str_consts(k.value, f)
                         if lits is None:
                             continue
                         n += 1
